@@ -13,6 +13,7 @@ package autodiff
 //@   requires obj != nil
 //@   ensures forall k int :: member(obj.Root, k) <==> (old(member(obj.Root, k)) || k == i)
 //@   ensures result <==> !old(member(obj.Root, i))
+//@   ensures old(ceilDef()) ==> ceilDef()
 //@   ensures forall t *AvlTree, k int :: t != obj && t != nil ==> (member(t.Root, k) <==> old(member(t.Root, k)))
 //@   modifies AvlTree.Root@{obj}, AvlNode.Left, AvlNode.Right, AvlNode.Value, AvlNode.Balance, AvlNode.Parent, AvlNode.Deleted
 //@ func (*AvlTree).Delete
@@ -20,6 +21,7 @@ package autodiff
 //@   requires obj != nil
 //@   ensures forall k int :: member(obj.Root, k) <==> (old(member(obj.Root, k)) && k != i)
 //@   ensures result <==> old(member(obj.Root, i))
+//@   ensures old(ceilDef()) ==> ceilDef()
 //@   ensures forall t *AvlTree, k int :: t != obj && t != nil ==> (member(t.Root, k) <==> old(member(t.Root, k)))
 //@   modifies AvlTree.Root@{obj}, AvlNode.Left, AvlNode.Right, AvlNode.Value, AvlNode.Balance, AvlNode.Parent, AvlNode.Deleted
 
@@ -73,4 +75,27 @@ package autodiff
 //@   ensures elem_$V(obj, i) == old(elem_$V(obj, j)) && elem_$V(obj, j) == old(elem_$V(obj, i))
 //@   ensures forall k int :: k != i && k != j ==> elem_$V(obj, k) == old(elem_$V(obj, k))
 //@   modifies map[int]$S@{obj.values}, AvlTree.Root, AvlNode.Left, AvlNode.Right, AvlNode.Value, AvlNode.Balance, AvlNode.Parent, AvlNode.Deleted
+// The iterator drops entries that have become zero: both the map key and the index key must go
+// (a stale index key later makes Slice copy a nil scalar), and the dense model must not change.
+//@ func (*$VIterator).skip
+//@   requires obj != nil && obj.tree != nil && ceilDef() && RI_$V(obj.v)
+//@   ensures RI_$V(obj.v) && obj.v.n == old(obj.v.n) && (forall k int :: elem_$V(obj.v, k) == old(elem_$V(obj.v, k)))
+//@   ensures forall k int :: has(obj.v.values, k) ==> old(has(obj.v.values, k)) && obj.v.values[k] == old(obj.v.values[k])
+//@   modifies map[int]$S@{obj.v.values}, AvlIterator.node, AvlIterator.value, AvlTree.Root, AvlNode.Left, AvlNode.Right, AvlNode.Value, AvlNode.Balance, AvlNode.Parent, AvlNode.Deleted
+//@   loop 1 invariant ceilDef() && obj.tree != nil && obj.tree == old(obj.tree) && obj.v == old(obj.v) && RI_$V(obj.v) && obj.v.n == old(obj.v.n)
+//@   loop 1 invariant forall k int :: elem_$V(obj.v, k) == old(elem_$V(obj.v, k))
+//@   loop 1 invariant forall k int :: has(obj.v.values, k) ==> old(has(obj.v.values, k)) && obj.v.values[k] == old(obj.v.values[k])
+//@   loop 1 invariant forall m map[int]$S, k int :: m != obj.v.values ==> (has(m, k) <==> old(has(m, k))) && m[k] == old(m[k])
+//@ func (*$VIterator).Next
+//@   requires obj != nil && obj.tree != nil && ceilDef() && RI_$V(obj.v)
+//@   ensures RI_$V(obj.v) && obj.v.n == old(obj.v.n) && (forall k int :: elem_$V(obj.v, k) == old(elem_$V(obj.v, k)))
+//@   modifies map[int]$S@{obj.v.values}, AvlIterator.node, AvlIterator.value, AvlTree.Root, AvlNode.Left, AvlNode.Right, AvlNode.Value, AvlNode.Balance, AvlNode.Parent, AvlNode.Deleted
+//@ func (*$V).ITERATOR
+//@   requires ceilDef() && RI_$V(obj)
+//@   ensures RI_$V(obj) && obj.n == old(obj.n) && (forall k int :: elem_$V(obj, k) == old(elem_$V(obj, k))) && result != nil && result.v == obj
+//@   modifies map[int]$S@{obj.values}, AvlIterator.node, AvlIterator.value, AvlTree.Root, AvlNode.Left, AvlNode.Right, AvlNode.Value, AvlNode.Balance, AvlNode.Parent, AvlNode.Deleted
+//@ func (*$V).ITERATOR_FROM
+//@   requires ceilDef() && RI_$V(obj)
+//@   ensures RI_$V(obj) && obj.n == old(obj.n) && (forall k int :: elem_$V(obj, k) == old(elem_$V(obj, k))) && result != nil && result.v == obj
+//@   modifies map[int]$S@{obj.values}, AvlIterator.node, AvlIterator.value, AvlTree.Root, AvlNode.Left, AvlNode.Right, AvlNode.Value, AvlNode.Balance, AvlNode.Parent, AvlNode.Deleted
 //@ end
